@@ -209,8 +209,14 @@ def sepBy (sep : Tok) : List (List Tok) → List Tok
 
 def signToks (n : Int) : List Tok := if n < 0 then [.sym .sub] else []
 
-/-- the DURATION token of `<n>s`: parseDuration rejects a zero duration -/
-def durTok (n : Nat) : Tok := .dur (if n = 0 then none else some n)
+/-- largest number of seconds model.ParseDuration accepts with the unit `s` (2^63 ns / 10^9, rounded down) -/
+def maxSecs : Nat := 9223372036
+
+/-- `<n>s` is a duration literal the parser accepts: parseDuration rejects zero, ParseDuration rejects more than maxSecs -/
+def okSecs (n : Nat) : Bool := n != 0 && decide (n ≤ maxSecs)
+
+/-- the DURATION token of `<n>s` (`none`: parseDuration fails) -/
+def durTok (n : Nat) : Tok := .dur (if okSecs n then some n else none)
 
 /-- `%ds` -/
 def printDurS (n : Int) : List Tok := signToks n ++ [durTok n.natAbs]
@@ -665,11 +671,12 @@ def wordOk (k : WKind) (t : String) : Bool :=
   | .num _ _ _ => isNumKind (classifyKind t)
   | k => classifyKind t == k
 
-/-- a token the lexer can produce, other than a duration that rounds to 0 seconds (known finding zero-duration:
-    `0s400ms` is lexed and accepted by parseDuration, but no literal denotes it after rounding) -/
+/-- a token the lexer can produce, other than a duration that parseDuration rounds to 0 seconds or to more than maxSecs
+    (known findings zero-duration and duration-out-of-range: `0s400ms` and `9223372036s800ms` are accepted, but no
+    literal the parser accepts denotes the rounded value) -/
 def tokOk : Tok → Bool
   | .word k t => wordOk k t
-  | .dur (some n) => n != 0
+  | .dur (some n) => okSecs n
   | _ => true
 
 /-! ## well-formed trees: the shapes the parser can produce (hypothesis of the round-trip theorem; the driver
@@ -731,15 +738,16 @@ def isOperand : Expr → Bool
   | _ => false
 
 def okSel (s : Sel) : Bool :=
-  (s.name == "" || isMetricIdent (classifyKind s.name)) && s.offEx.all (fun x => x != 0)
+  (s.name == "" || isMetricIdent (classifyKind s.name)) && s.offEx.all (fun x => okSecs x.natAbs) &&
+    decide (s.off.natAbs ≤ maxSecs)
 
 mutual
 def wf : Expr → Bool
   | .num n => !(n.neg && n.mag == "NaN")
   | .str _ => true
   | .vec s => okSel s
-  | .mat s r => okSel s && r != 0
-  | .sub e r st _ _ => wf e && isOperand e && r != 0 && decide (st ≤ 1)
+  | .mat s r => okSel s && okSecs r
+  | .sub e r st _ o => wf e && isOperand e && okSecs r && decide (st ≤ 1) && decide (o.natAbs ≤ maxSecs)
   | .par e => wf e
   | .un _ x => wf x && !isNum x && fitsAt unaryOperandPrec x
   | .bin o m l r => wf l && wf r && wfMod m && fitsAt o.prec l && stopsBefore l o.prec && fitsAt (rhsPrec o) r
